@@ -392,6 +392,18 @@ def from_json_t(x):
 SITES = ["annot", "let", "field", "twice"]
 
 
+def run_chunked(exe, args, lines, chunk=32000, timeout=7200):
+    """run_sharded in bounded batches with a timeout that survives a heavily loaded machine
+    (one interpreter start per program, ~60 ms each on an idle core)."""
+    out = []
+    for i in range(0, len(lines), chunk):
+        rc, o, err = core.run_sharded(exe, args, lines[i:i + chunk], timeout=timeout)
+        if rc:
+            return rc, out + o, err
+        out += o
+    return 0, out, ""
+
+
 def tcon(t):
     return t if isinstance(t, str) else (t[0] + ("-" + t[1] if t[0] in ("rec", "dict") else ""))
 
@@ -426,7 +438,7 @@ def run_pairs(ck, pairs, exe_model, sites, label):
         for s in sites:
             progs.append("full\t" + f[3 + s].replace("\\", "\\\\").replace("\n", "\\n"))
             index.append((i, s))
-    rc, iout, err = core.run_sharded(core.harness_bin("nkeval"), [], progs)
+    rc, iout, err = run_chunked(core.harness_bin("nkeval"), [], progs)
     if rc:
         ck.obligation("impl-run:" + label, "internal", False, "rc=%s %s" % (rc, err))
         return
@@ -490,7 +502,7 @@ def run(ck):
     ex = exhaustive(thorough)
     ck.coverage["exhaustive_small_pairs"] = len(ex)
     run_pairs(ck, ex, exe_model, [0, 1, 2, 3] if thorough else [0], "exhaustive")
-    n = 30000 if thorough else 1500
+    n = 12000 if thorough else 1500
     sample = []
     for i in range(n):
         sample.append(gen_pair(rng.fork(), rng.choice([1, 2, 2, 3, 3, 4])))
